@@ -4,7 +4,8 @@ import GeomV.C12.LemmasKNN
 C12 — property theorems (nearest neighbour).  They hold for every visiting order that is a
 permutation of the entry indices (`OrderOK`; `sort.Sort` is one, whatever it does with ties), on
 every well-formed tree (C11's `WF`, which `C11_reachable` establishes after any history), for
-all query points, assuming every object box contains a point.
+all query points, assuming the box of every STORED object contains a point (`min ≤ max`; needed only
+where MINMAXDIST pruning is applied: NearestNeighbor and k = 1).
 -/
 set_option linter.unusedVariables false
 set_option linter.unusedSimpArgs false
@@ -32,8 +33,9 @@ theorem C12_minMaxDist_spec (px py : Rat) (b : Box) (bs : List Box) (henv : isEn
 /-- **C12_prune_sound_k1** — `pruneEntries` is sound for the single nearest neighbour: in a
 well-formed non-leaf node, a child whose MINDIST exceeds the smallest MINMAXDIST of the node holds
 no object nearer than the nearest object of the whole node. -/
-theorem C12_prune_sound_k1 [Bounded O] (px py : Rat) (hv : ∀ o : O, (Bounded.bounds o).valid = true)
-    {maxC h : Nat} (es : List (Entry O)) (hes : ∀ e ∈ es, wfEntry maxC h e) (mmd : Rat)
+theorem C12_prune_sound_k1 [Bounded O] (px py : Rat)
+    {maxC h : Nat} (es : List (Entry O)) (hes : ∀ e ∈ es, wfEntry maxC h e)
+    (hv : ∀ e ∈ es, ∀ o ∈ e.objs, (Bounded.bounds o).valid = true) (mmd : Rat)
     (hmm : minMinMaxDist px py (es.map Entry.bb) = some mmd) (b : Box) (c : Node O)
     (hc : Entry.child b c ∈ es) (hpr : mmd < minDist px py b) :
     ∃ e ∈ es, ∃ o' ∈ e.objs, minDist px py e.bb ≤ mmd ∧
@@ -46,13 +48,14 @@ theorem C12_prune_sound_k1 [Bounded O] (px py : Rat) (hv : ∀ o : O, (Bounded.b
   rw [ebk] at ek
   have henvk := hwk.env
   obtain ⟨x, hx, hxle⟩ := minMaxDist_spec px py henvk (by
-    intro x hx; obtain ⟨o', _, rfl⟩ := List.mem_map.mp hx; exact hv o')
+    intro x hx; obtain ⟨o', ho', rfl⟩ := List.mem_map.mp hx; exact hv _ hmem o' ho')
   obtain ⟨ostar, hostar, rfl⟩ := List.mem_map.mp hx
-  have hmono := minDist_mono px py (henvk.lo _ hx) (hv ostar)
+  have hmono := minDist_mono px py (henvk.lo _ hx) (hv _ hmem ostar hostar)
   refine ⟨es[k], hmem, ostar, hostar, by linarith, ?_⟩
   intro o ho
   have henvc := (hes _ hc).env
-  have hmonoj := minDist_mono px py (henvc.lo _ (List.mem_map_of_mem (f := Bounded.bounds) ho)) (hv o)
+  have hmonoj := minDist_mono px py (henvc.lo _ (List.mem_map_of_mem (f := Bounded.bounds) ho))
+    (hv _ hc o (by simpa [Entry.objs] using ho))
   simp only [Entry.bb] at hmonoj
   unfold odist
   rw [← minDist_eq_boxDist2, ← minDist_eq_boxDist2]
@@ -62,12 +65,12 @@ theorem C12_prune_sound_k1 [Bounded O] (px py : Rat) (hv : ∀ o : O, (Bounded.b
 stored object whose box is at minimum distance from `p`. -/
 theorem C12_nn [Bounded O] [DecidableEq O] {order : List Rat → List Nat} (hO : OrderOK order)
     (t : C11.Tree O) (hwf : t.WF = true) (hne : t.abs ≠ []) (px py : Rat)
-    (hv : ∀ o : O, (Bounded.bounds o).valid = true) :
+    (hv : ∀ o ∈ t.abs, (Bounded.bounds o).valid = true) :
     ∃ o, nearestNeighbor order t px py = .ok o ∧ specNN t.abs px py o = true ∧
       o ∈ t.abs ∧ ∀ o' ∈ t.abs, odist px py o ≤ odist px py o' := by
   have hw : wfNode t.maxC t.height t.root = true := by
     have := hwf; simp [C11.Tree.WF] at this; exact this.1.1
-  obtain ⟨st', e, p⟩ := nnNode_spec hO px py hv t.root t.height hw none
+  obtain ⟨st', e, p⟩ := nnNode_spec hO px py t.root t.height hw hv none
   obtain ⟨o0, ho0⟩ := List.exists_mem_of_ne_nil _ hne
   obtain ⟨d, o, hst, _⟩ := p.best o0 ho0
   have hfrom : ∃ o1, o1 ∈ t.root.objs ∧ st' = some (cdist px py o1, o1) := by
@@ -88,12 +91,12 @@ theorem C12_nn [Bounded O] [DecidableEq O] {order : List Rat → List Nat} (hO :
 /-- **C12_empty** — on an empty tree `NearestNeighbor` raises its explicit panic (outside the
 property's "non-empty tree"; documented behaviour). -/
 theorem C12_empty [Bounded O] {order : List Rat → List Nat} (hO : OrderOK order) (t : C11.Tree O)
-    (hwf : t.WF = true) (he : t.abs = []) (px py : Rat)
-    (hv : ∀ o : O, (Bounded.bounds o).valid = true) :
+    (hwf : t.WF = true) (he : t.abs = []) (px py : Rat) :
     nearestNeighbor order t px py = .error Fault.nnNil := by
   have hw : wfNode t.maxC t.height t.root = true := by
     have := hwf; simp [C11.Tree.WF] at this; exact this.1.1
-  obtain ⟨st', e, p⟩ := nnNode_spec hO px py hv t.root t.height hw none
+  have hv : ∀ o ∈ t.abs, (Bounded.bounds o).valid = true := by rw [he]; intro o ho; cases ho
+  obtain ⟨st', e, p⟩ := nnNode_spec hO px py t.root t.height hw hv none
   have : st' = none := by
     rcases p.from_ with g | ⟨o, ho, _⟩
     · exact g
@@ -251,11 +254,11 @@ theorem knn1_eq [Bounded O] (order : List Rat → List Nat) (px py : Rat) {maxC 
 the nearest stored object in its single slot (nil on an empty tree). -/
 theorem C12_knn_one [Bounded O] [DecidableEq O] {order : List Rat → List Nat} (hO : OrderOK order)
     (t : C11.Tree O) (hwf : t.WF = true) (px py : Rat)
-    (hv : ∀ o : O, (Bounded.bounds o).valid = true) :
+    (hv : ∀ o ∈ t.abs, (Bounded.bounds o).valid = true) :
     ∃ res, nearestNeighbors order t 1 px py = .ok res ∧ specKNN t.abs 1 px py res = true := by
   have hw : wfNode t.maxC t.height t.root = true := by
     have := hwf; simp [C11.Tree.WF] at this; exact this.1.1
-  obtain ⟨st', e, p⟩ := nnNode_spec hO px py hv t.root t.height hw none
+  obtain ⟨st', e, p⟩ := nnNode_spec hO px py t.root t.height hw hv none
   have e2 := knn1_eq order px py t.root t.height hw none st' e
   refine ⟨[st'.map (·.2)], ?_, ?_⟩
   · have : List.replicate 1 (none : Option (Rat × O)) = [none] := rfl
@@ -291,7 +294,7 @@ theorem C12_knn_one [Bounded O] [DecidableEq O] {order : List Rat → List Nat} 
 /-- **C12_knn_all** — `C12_knn` and `C12_knn_one` together: every k. -/
 theorem C12_knn_all [Bounded O] [DecidableEq O] {order : List Rat → List Nat} (hO : OrderOK order)
     (t : C11.Tree O) (hwf : t.WF = true) (k : Nat) (px py : Rat)
-    (hv : ∀ o : O, (Bounded.bounds o).valid = true) :
+    (hv : ∀ o ∈ t.abs, (Bounded.bounds o).valid = true) :
     ∃ res, nearestNeighbors order t k px py = .ok res ∧ specKNN t.abs k px py res = true := by
   by_cases hk : k = 1
   · subst hk; exact C12_knn_one hO t hwf px py hv
@@ -301,9 +304,9 @@ theorem C12_knn_all [Bounded O] [DecidableEq O] {order : List Rat → List Nat} 
 `NearestNeighbors(k, p)` does not panic for any k — k = 1 included, unlike `NearestNeighbor`
 (`C12_empty`) — and returns k nil slots. -/
 theorem C12_knn_empty [Bounded O] [DecidableEq O] {order : List Rat → List Nat} (hO : OrderOK order)
-    (t : C11.Tree O) (hwf : t.WF = true) (he : t.abs = []) (k : Nat) (px py : Rat)
-    (hv : ∀ o : O, (Bounded.bounds o).valid = true) :
+    (t : C11.Tree O) (hwf : t.WF = true) (he : t.abs = []) (k : Nat) (px py : Rat) :
     nearestNeighbors order t k px py = .ok (List.replicate k none) := by
+  have hv : ∀ o ∈ t.abs, (Bounded.bounds o).valid = true := by rw [he]; intro o ho; cases ho
   obtain ⟨res, h1, h2⟩ := C12_knn_all hO t hwf k px py hv
   rw [h1]; congr 1
   unfold specKNN at h2
